@@ -351,9 +351,9 @@ func init() {
 			g.Static = append(g.Static, boundedC07Stack(env))
 			g.Unverified = []string{
 				"that no #aa: directive remains after the build (Run scans the original text once; Stack.Apply inserts foreign text)",
-				"the cleaning of a stacked profile body by multi-line regexps; that the host profile's own rules stay as they were",
+				"the cleaning of a stacked profile body by multi-line regexps and that the host profile's own rules stay as they were: only a bounded stand-in (labelled bounded)",
 				"the text that the generated rules render to (templates), and where it is inserted",
-				"Exec.Apply's rule list beyond its order-independence (it goes through Parse and Resolve)",
+				"Exec.Apply: that there is one rule per executable of each named profile (only a bounded stand-in); proved: every generated rule is a file rule carrying exactly the requested transition",
 			}
 			return g
 		},
